@@ -4,7 +4,10 @@ from .util import call
 
 ID = 'C13'
 LEAN_MODULE = 'KernProofs.C13'
-THEOREMS = ['KM.C13.C13_select_then_view', 'KM.C13.C13_view_then_select', 'KM.C13.C13_independent_arguments', 'KM.C13.C13_default_spine_types', 'KM.C13.C13_default_encoding', 'KM.C13.C13_default_exclude', 'KM.C13.C13_default_include']
+EXTRA_MODULES = ['KernProofs.C13Doc']
+THEOREMS = ['KM.C13.C13_select_then_view', 'KM.C13.C13_view_then_select', 'KM.C13.C13_independent_arguments', 'KM.C13.C13_default_spine_types', 'KM.C13.C13_default_encoding', 'KM.C13.C13_default_exclude', 'KM.C13.C13_default_include',
+            'KM.C13D.cellBody_clefFree', 'KM.C13D.appendRow_specO', 'KM.C13D.rowOfStage_specO', 'KM.C13D.bodyRows_specO', 'KM.C13D.C13_export_of_text',
+            'KM.C13D.C13_cell_factorises', 'KM.C13D.C06_cell_projection', 'KM.C13D.C05_selection_keeps_grid']
 FINGERPRINTS = ['exporter.Exporter.export_string', 'exporter.Exporter.append_row', 'exporter.Exporter.export_token', 'generic.Generic',
                 'public', 'exporter.ExportOptions', 'tokenizers.TokenizerFactory.create']
 RULE = ('generated documents (quick 20 / thorough 200) x the product of: random subsets of spine ids / types, include/exclude pairs, the six '
@@ -62,6 +65,8 @@ def explore(ctx, depth):
     rng = ctx.rng
     cats = list(TC)
     cases = docrun.make_cases(ctx, 20 if depth == 'quick' else 200)
+    import gen
+    cases += docrun.make_cases(ctx, 0, docs=[gen.shift_doc(ctx.rng) for _ in range(5 if depth == 'quick' else 50)])
     combos = []
     incs = [None, [TC.CORE, TC.SIGNATURES, TC.BARLINES, TC.STRUCTURAL], [TC.NOTE_REST, TC.BARLINES, TC.STRUCTURAL], None]
     excs = [None, [TC.DECORATION], [TC.DURATION], [TC.SIGNATURES, TC.LYRICS]]
